@@ -535,7 +535,9 @@ func mutate(rng *rand.Rand, s string, long bool) string {
 		b = append(b[:i], append([]byte(extras[rng.Intn(len(extras))]), b[i:]...)...)
 	case 4: // very long token
 		i := rng.Intn(len(b) + 1)
-		b = append(b[:i], append([]byte(strings.Repeat(string(alphabet[rng.Intn(len(alphabet))]), 1+rng.Intn(5000))), b[i:]...)...)
+		tok := alphabet[rng.Intn(len(alphabet))]
+		// up to 5000 BYTES whatever the token's length (keyword tokens are up to 28 bytes long)
+		b = append(b[:i], append([]byte(strings.Repeat(tok, 1+rng.Intn(5000)/len(tok))), b[i:]...)...)
 	case 5: // deep nesting
 		n := 1 + rng.Intn(3000)
 		open, close := "(", ")"
